@@ -146,6 +146,12 @@ def corpus(ctx, rng):
                  "element": n[0]} for k, n in enumerate(["S1", "O1", "O2"])]
     jobs.append({"what": "ligand-complex with twin hetero groups", "text": gen.pdb_text([pep + gen.water((6, 14, 4), resseq=101), lig, cof("X", (14, -16, 10)), cof("Y", (-14, 16, -10))]),
                  "args": ["--ff=AMBER", f"--ligand={os.path.join(DATA, 'acetate.mol2')}"]})
+    # ... and with an unrecognised residue given as ATOM records whose atoms are named like ligand atoms: it stays unparameterised
+    # and has to stay reported
+    odd = [{"rec": "ATOM", "name": n, "resname": "PSU", "chain": "P", "resseq": 77, "icode": "", "xyz": np.array([20.0 + 1.4 * k, -18.0 + 0.4 * k, 3.0]),
+            "element": n[0]} for k, n in enumerate(["CAA", "OAC", "N1", "CAB"])]
+    jobs.append({"what": "ligand-complex with an unknown residue sharing atom names with the ligand", "text": gen.pdb_text([pep + gen.water((6, 14, 4), resseq=101), odd, lig]),
+                 "args": ["--ff=AMBER", f"--ligand={os.path.join(DATA, 'acetate.mol2')}"]})
     real = ["1AJJ.pdb", "cterm_hid.pdb", "5vav_cyclic_peptide.pdb", "1BX8.pdb", "1K1I.pdb"] if ctx.quick else sorted(os.path.basename(f) for f in __import__("glob").glob(os.path.join(DATA, "*.pdb")))
     for n, f in enumerate(real):
         jobs.append({"what": f, "text": open(os.path.join(DATA, f)).read(), "args": [f"--ff={ffs[n % 6]}"] + opts_cycle[(2 * n) % len(opts_cycle)]})
